@@ -93,6 +93,15 @@ def gen(r, tier):
                 op["reuse_token"] = True
                 op["t"] = round(prev["t"] + r.choice([0.01, 0.03, 0.09, 0.2]), 4)
                 t = op["t"]
+            elif (op["cls"] == "request" and op["type"] == "CON" and prev is not None and prev.get("op") == "inject"
+                    and prev.get("cls") == "request" and prev["type"] == "CON" and prev.get("dst") == "uni" and op.get("dst") == "uni"
+                    and prev.get("handler") in ("pre", "post", "slow", "slowraise", "slowret5") and not prev.get("reuse_pending")
+                    and r.chance(0.3)):
+                # a peer that gives up on a request and takes its token for the next one while the first is neither
+                # answered nor acknowledged: the first is the peer's loss, the second is an ordinary request
+                op["reuse_pending"] = True
+                op["t"] = round(prev["t"] + r.choice([0.006, 0.02, 0.05, 0.09]), 4)
+                t = op["t"]
             if op.get("token") == "match" and not any(o["op"] == "request" and o["target"] == "peer" for o in ops):
                 ops.append({"op": "request", "t": round(t, 4), "target": "peer", "tuning": r.choice([None, "Unreliable"])})
                 op["t"] = round(t + 0.05, 4)
@@ -158,6 +167,13 @@ def systematic(tier):
                                      "no_response": nr, "dst": "uni"},
                                     {"op": "inject", "t": dt, "type": typ2, "cls": "request", "code": rc.GET, "handler": "fast",
                                      "no_response": None, "dst": "uni", "reuse_token": True}]})
+    for h1 in ("slow", "slowret5"):
+        for h2 in ("fast", "slow", "raise", "post"):
+            for dt in (0.02, 0.09):
+                out.append({"ops": [{"op": "inject", "t": 0.0, "type": "CON", "cls": "request", "code": rc.GET, "handler": h1,
+                                     "no_response": None, "dst": "uni"},
+                                    {"op": "inject", "t": dt, "type": "CON", "cls": "request", "code": rc.GET, "handler": h2,
+                                     "no_response": None, "dst": "uni", "reuse_pending": True}]})
     for org in ("piggy", "sep_con", "sep_non"):
         for d in (0.0, 0.08, 0.15, 0.5):
             out.append({"proxy": {"reqs": [{"t": 0.0, "con": True, "d": d, "origin": org}, {"t": 1.5, "con": False, "d": d, "origin": org}]}, "ops": []})
@@ -426,6 +442,14 @@ def execute(sim, scn):
             token = injected[-1]["token"]
             injected[-1]["t_next_same_token"] = loop.now + 0.005
             sim.probe("token_reused_after_completed_exchange")
+        if (op.get("reuse_pending") and injected and injected[-1]["op"].get("cls") == "request"
+                and injected[-1]["op"].get("type") == "CON" and injected[-1]["op"].get("dst") == "uni"
+                and injected[-1]["op"].get("handler") in ("pre", "post", "slow", "slowraise", "slowret5")
+                and loop.now + 0.005 - injected[-1]["t"] < DELAY - 0.001 and not injected[-1].get("ndup")
+                and op["cls"] == "request" and op["type"] == "CON" and not injected[-1].get("superseded")):
+            token = injected[-1]["token"]
+            injected[-1]["superseded"] = True
+            sim.probe("token_taken_over_while_request_pending")
         m = {"type": TYPES[op["type"]], "code": op["code"], "mid": mid, "token": token, "options": opts,
              "payload": payload}
         dst = (MCAST, 5683) if op.get("dst") == "mcast" else E
@@ -537,6 +561,10 @@ def execute(sim, scn):
         ident = {"i": rec["i"], "type": op["type"], "cls": op["cls"], "code": rc.code_str(op["code"]),
                  "dst": op.get("dst"), "handler": op.get("handler"), "no_response": op.get("no_response"),
                  "token": op.get("token")}
+        if rec.get("superseded"):
+            # the peer used this request's token for another confirmable request before this one was acknowledged:
+            # the statement says nothing about the one given up; the one that took the token is checked like any other
+            continue
         acks = sent_to_peer(lambda m: m["type"] == rc.ACK and m["mid"] == M)
         rsts = sent_to_peer(lambda m: m["type"] == rc.RST and m["mid"] == M)
         resps = sent_to_peer(lambda m: m["type"] in (rc.CON, rc.NON) and m["code"] >= 64 and m["token"] == T and T != b"")
